@@ -225,8 +225,9 @@ def check(prop, tier):
     sweep_shm()
     ncpu = os.cpu_count() or 4
     workers = int(os.environ.get("VERIF_WORKERS", str(min(16, ncpu))))
+    known_keys = [k["key"] for k in load_known() if k.get("property") == prop and k.get("status") == "open"]
     jobs = [{"mode": "explore", "property": prop, "thorough": thorough, "base_seed": seed, "first": w, "stride": workers,
-             "max_runs": 0, "budget_sec": budget} for w in range(workers)]
+             "max_runs": 0, "budget_sec": budget, "known_keys": known_keys} for w in range(workers)]
     out, rundir = run_workers(jobs, budget * 3 + 300)
 
     runs = []
@@ -246,7 +247,7 @@ def check(prop, tier):
 
     # determinism re-check on a sample (fresh process, other GOMAXPROCS)
     sample = [r["seed"] for r in runs[:: max(1, len(runs) // 6)]][:6]
-    djobs = [{"mode": "seeds", "property": prop, "thorough": thorough, "seeds": sample, "gomaxprocs": 7}]
+    djobs = [{"mode": "seeds", "property": prop, "thorough": thorough, "seeds": sample, "gomaxprocs": 7, "known_keys": known_keys}]
     dout, drundir = run_workers(djobs, 900)
     by_seed = {r["seed"]: r for r in runs}
     div = 0
